@@ -159,17 +159,15 @@ def projection_observations(prg, inputs):
 
 
 def duplication_observations(prg, inputs):
-    """per factored literal set: (first rule that uses it [before], canonical aux rule, that rule [after], context)"""
+    """per factored literal set: the canonical aux rule, ALL (rule before, rule after) pairs and the context (every other
+    statement of the result); sets whose places of use are not in the shape of the theorem are counted"""
     from ngo.literal_duplication import LiteralDuplicationTranslator
     try:
         before = list(prg)
         before_ser = {}
         for s in before:
             if s.ast_type == ASTType.Rule:
-                try:
-                    before_ser[(s.location.begin.line, s.location.begin.column, str(s.head))] = s
-                except Exception:  # noqa
-                    pass
+                before_ser[(s.location.begin.line, s.location.begin.column, str(s.head))] = s
         before_strs = {str(s) for s in before}
         after = LiteralDuplicationTranslator(prg, inputs).execute(prg)
     except Exception:  # noqa
@@ -179,14 +177,22 @@ def duplication_observations(prg, inputs):
     obs, other = [], 0
     for a in aux_rules:
         name = a.head.atom.symbol.name
-        users = [s for s in after if s.ast_type == ASTType.Rule and s is not a and s.body
-                 and s.body[-1].ast_type == ASTType.Literal and s.body[-1].atom.ast_type == ASTType.SymbolicAtom
-                 and s.body[-1].atom.symbol.name == name]
-        done = False
+        if any("__aux_" in str(l) for l in a.body):
+            other += 1
+            continue
+        users = [s for s in after if s.ast_type == ASTType.Rule and s is not a and any(
+            l.ast_type == ASTType.Literal and l.atom.ast_type == ASTType.SymbolicAtom and l.atom.symbol.name == name
+            for l in s.body)]
+        pairs = []
+        ok = bool(users)
         for u in users:
             o = before_ser.get((u.location.begin.line, u.location.begin.column, str(u.head)))
-            if o is None or any(("__aux_" in str(l)) for l in list(o.body) + list(u.body[:-1])):
-                continue   # nested factoring / a rule rewritten twice: not the shape of the theorem
+            last = u.body[-1] if u.body else None
+            if o is None or last is None or not (last.ast_type == ASTType.Literal and last.atom.ast_type == ASTType.SymbolicAtom
+                                                 and last.atom.symbol.name == name) \
+                    or any(("__aux_" in str(l)) for l in list(o.body) + list(u.body[:-1])):
+                ok = False   # nested factoring / a rule rewritten twice / aux literal not last: not the shape of the theorem
+                break
             try:
                 tr = _Apart()
                 used = set()
@@ -201,14 +207,17 @@ def duplication_observations(prg, inputs):
                 rest2 = [pick(l) for l in u.body[:-1]]
                 o2 = o.update(body=body2)
                 u2 = u.update(body=rest2 + [u.body[-1]])
-                # the context of the FIRST place of use: the source program without that rule (nobody mentions aux yet)
-                ctx = [s for s in before if s is not o]
-                obs.append((ser.stm(o2), ser.stm(a), ser.stm(u2), ser.prog(ctx)))
-                done = True
-                break
+                pairs.append((ser.stm(o2), ser.stm(u2)))
             except Exception:  # noqa
-                continue
-        if not done:
+                ok = False
+                break
+        if not ok:
+            other += 1
+            continue
+        try:
+            ctx = [s for s in after if s is not a and all(s is not u for u in users)]
+            obs.append((ser.stm(a), pairs, ser.prog(apart_prog(ctx))))
+        except Exception:  # noqa
             other += 1
     return obs, other
 
@@ -347,10 +356,11 @@ def run(rng, n_gen, corpus_limit=None) -> dict:
             reqs.append(f'(sem_split_cond {before} {aux} {upd} {ctxp})')
             meta.append(("projection", text, (aux, upd), 1))
         dobs, dother = duplication_observations(_preprocess(_parse(text)), inputs)
-        hist["duplication: factored sets without a first place of use in the shape of the theorem"] += dother
-        for before, aux, upd, ctxp in dobs:
-            reqs.append(f'(sem_dup_cond {before} {aux} {upd} {ctxp})')
-            meta.append(("duplication", text, (aux, upd), 1))
+        hist["duplication: factored sets whose places of use are not in the shape of the theorem"] += dother
+        for aux, pairs, ctxp in dobs:
+            uses = " ".join(f"({o} {u})" for o, u in pairs)
+            reqs.append(f'(sem_dup_all {aux} ({uses}) {ctxp})')
+            meta.append(("duplication", text, (aux, pairs), 1))
         sobs, other = symmetry_observations(_preprocess(_parse(text)), inputs)
         hist["symmetry: rules rewritten in another shape (count / aux / several literals)"] += other
         for rtext, x, y, others in sobs:
@@ -384,7 +394,8 @@ def run(rng, n_gen, corpus_limit=None) -> dict:
                 same = (leanio_show(a[3]), leanio_show(a[4])) == what
                 flags = [str(a[1]) == "1", str(a[2]) == "1", same]
             else:
-                same = (leanio_show(a[4]), leanio_show(a[5])) == what
+                got = [(leanio_show(x[0]), leanio_show(x[1])) for x in a[5]]
+                same = leanio_show(a[4]) == what[0] and got == list(what[1])
                 flags = [str(a[1]) == "1", str(a[2]) == "1", str(a[3]) == "1", same]
             if not same:
                 mismatches.append({"op": f"sem_{kind}_cond", "program": text, "impl": str(what)[:400],
